@@ -841,11 +841,22 @@ pub(crate) fn parse_time(source: &str) -> TemporalResult<TimeRecord> {
     }
 }
 
+/// Parses a time string; a UTC designator is only valid together with a date.
+#[inline]
+pub(crate) fn parse_time_without_utc_designator(source: &str) -> TemporalResult<IxdtfParseRecord> {
+    let record = parse_ixdtf(source, ParseVariant::Time)?;
+    if record.offset == Some(UtcOffsetRecordOrZ::Z) {
+        return Err(TemporalError::range()
+            .with_message("UTC designator is not valid for a time string."));
+    }
+    Ok(record)
+}
+
 #[inline]
 pub(crate) fn parse_allowed_calendar_formats(s: &str) -> Option<&[u8]> {
     if let Ok(r) = parse_ixdtf(s, ParseVariant::DateTime).map(|r| r.calendar) {
         return Some(r.unwrap_or(&[]));
-    } else if let Ok(r) = IxdtfParser::from_str(s).parse_time().map(|r| r.calendar) {
+    } else if let Ok(r) = parse_time_without_utc_designator(s).map(|r| r.calendar) {
         return Some(r.unwrap_or(&[]));
     } else if let Ok(r) = parse_ixdtf(s, ParseVariant::YearMonth).map(|r| r.calendar) {
         return Some(r.unwrap_or(&[]));
